@@ -58,6 +58,8 @@ func (w *world) open(id string) {
 	close(w.gate(id))
 }
 
+const vendorRefusedOp = kmip.Operation(0x80000001)
+
 func newWorld() *world { return newWorldOn(nil) }
 
 func newWorldOn(wrap func(net.Listener) net.Listener) *world { return newWorldWith(wrap, true) }
@@ -101,6 +103,11 @@ func newWorldWith(wrap func(net.Listener) net.Listener, ownDiscover bool) *world
 		return &payloads.ActivateResponsePayload{UniqueIdentifier: id}, nil
 	}))
 	// the application answers Discover Versions itself; its handler is as fallible as any other
+	// a vendor operation handled with the generic payload type; its handler refuses every request with a plain error
+	// (what it returns besides the error is a nil *UnknownPayload)
+	ex.Route(vendorRefusedOp, kmipserver.HandleFunc(func(ctx context.Context, req *kmip.UnknownPayload) (*kmip.UnknownPayload, error) {
+		return nil, errors.New("vendor operation refused")
+	}))
 	if ownDiscover {
 		ex.Route(kmip.OperationDiscoverVersions, kmipserver.HandleFunc(func(ctx context.Context, req *payloads.DiscoverVersionsRequestPayload) (*payloads.DiscoverVersionsResponsePayload, error) {
 			if len(req.ProtocolVersion) == 3 {
@@ -1031,7 +1038,7 @@ func Spec() *core.Spec {
 			"every request and response carries a unique id (Unique Batch Item ID) so each connection's received sequence is checked against its sent sequence (exactly once, in order, never more; complete when the client drained); " +
 			"the binary hostile corpus of C02 (length/type ladders over every item of valid requests, random mutations) fed one input per connection; a canary connection is pinged throughout; goroutine census at quiescence; Shutdown at the end; directed schedules through the verif hooks. The worker process is the crash monitor. a TLS listener with peers stalling in, garbling or abandoning the handshake while well-behaved TLS clients must be served and Shutdown must return; distinct = distinct per-connection action sequences",
 		Assumptions: []string{"a connection closed abruptly by the client may end short, never long or out of order", "goroutines gone = none with a library frame (other than the accept loop) within 10 s of the last connection ending"},
-		Required: []string{"discover_handler_panics", "wrong_count_requests", "shutdowns_with_blocked_writers", "builtin_discover_sublists", "pipelined_undecodable_connections", "undecodable_requests.kind4", "histories", "tls_histories", "tls_good_clients", "tls_hostile_peers.kind0", "tls_hostile_peers.kind1", "tls_shutdowns_with_stalled_peers", "connections", "responses_received", "graceful_connections_fully_answered", "canary_pings", "census_checks", "undecodable_requests.kind0", "undecodable_requests.kind1",
+		Required: []string{"discover_handler_panics", "wrong_count_requests", "vendor_refusals", "shutdowns_with_blocked_writers", "builtin_discover_sublists", "pipelined_undecodable_connections", "undecodable_requests.kind4", "histories", "tls_histories", "tls_good_clients", "tls_hostile_peers.kind0", "tls_hostile_peers.kind1", "tls_shutdowns_with_stalled_peers", "connections", "responses_received", "graceful_connections_fully_answered", "canary_pings", "census_checks", "undecodable_requests.kind0", "undecodable_requests.kind1",
 			"directed.client-gone-while-send-holds-tx", "hostile_inputs_framed", "hostile_rounds"},
 		Shards: func(string) int { return 8 },
 		Families: []core.Family{
@@ -1065,6 +1072,7 @@ func Spec() *core.Spec {
 				}
 				return 6
 			}, Run: nonReadingShutdownCase, Timeout: 120 * time.Second},
+			{Name: "vendor-refusal", Exhaustive: true, N: func(string) int { return 6 }, Run: vendorRefusalCase, Timeout: 60 * time.Second},
 			{Name: "wrong-count", Exhaustive: true, N: func(string) int { return len(countShapes) }, Run: wrongCountCase, Timeout: 60 * time.Second},
 			{Name: "builtin-discover", N: func(tier string) int {
 				if tier == core.Thorough {
